@@ -55,3 +55,10 @@ Definition run_steps (m : mem) (ss : list wstep) : mem := fold_left apply_step s
 
 Definition write_to (ps : Z) (m : mem) (addr : Z) (data : list Z) : mem :=
   run_steps m (steps_of ps addr data writeto_shape).
+
+(* the fallback writer memory.writeTo (mwrite_prot.go), taken when mprotect(RWX) is refused (macOS, W^X policies):
+   pages become read+WRITE (no EXEC) for the copy, then read+exec *)
+Definition fallback_shape : list wkind := [SProt 3; SCopy; SProt 5].
+Definition write_to_fallback (ps : Z) (m : mem) (addr : Z) (data : list Z) : mem :=
+  run_steps m (steps_of ps addr data fallback_shape).
+
